@@ -42,6 +42,28 @@ def innermost_func(sm, rel, node_line_owner):
     return None
 
 
+REF_CHECK_COMPONENTS = '''
+def check_components(components):
+    for comp in components:
+        if not comp.is_complete():
+            raise exceptions.ComponentNotCompleteError(component_name=comp.name, missing_state_derivatives=[state.name for state in comp.states_without_derivatives])
+'''
+
+REF_IS_COMPLETE = '''
+def is_complete(self):
+    return self.states_with_derivatives == self.states
+'''
+
+REF_FIND_STATE = '''
+def find_state(self, state_name):
+    for state in self.states:
+        if state.name == state_name:
+            return state
+    else:
+        raise exceptions.StateNotFoundInComponent(state_name=state_name, component_name=self.name)
+'''
+
+
 def run(ctx: Ctx):
     sm = ctx.sm
     ctx.assume("that every concrete ill-formed text raises is NOT decided (needs the loader executed); what is decided is that the guards exist, see every definition and cannot be bypassed")
@@ -141,16 +163,10 @@ def run(ctx: Ctx):
         first = [s for s in f.node.body if not (isinstance(s, ast.Expr) and isinstance(s.value, ast.Constant))][0]
         ok = isinstance(first, ast.Expr) and isinstance(first.value, ast.Call) and (dotted(first.value.func) or "") == "check_components"
         ctx.check(ok, "R08.b", f.key("check_components-first"), "check_components(components) is the first statement", f"{qn} does not start with check_components(components)", f.where())
-    cc = sm.func("ode.py", "check_components")
-    loops = [n for n in ast.walk(cc.node) if isinstance(n, ast.For)]
-    ok = False
-    if loops and norm(loops[0].iter) == cc.params[0]:
-        body = loops[0].body
-        ok = len(body) == 1 and isinstance(body[0], ast.If) and norm(body[0].test) == f"not {loops[0].target.id}.is_complete()" and any(isinstance(s, ast.Raise) for s in body[0].body) and not body[0].orelse
-    ctx.check(ok, "R08.b", cc.key("every-component"), "every component must be complete, else ComponentNotCompleteError", "check_components does not raise for *every* component that is not complete (some components are skipped or the test changed)", cc.where())
-    ic = sm.func("ode_component.py", "BaseComponent.is_complete")
-    rets = [norm(n.value) for n in ast.walk(ic.node) if isinstance(n, ast.Return)]
-    ctx.check(rets in (["self.states_with_derivatives == self.states"], ["self.states == self.states_with_derivatives"]), "R08.b", ic.key("definition"), "complete iff states with derivatives == states", f"is_complete returns {rets}", ic.where())
+    from . import util as _u8b
+
+    _u8b.same_as_reference(ctx, "R08.b", "ode.py", "check_components", REF_CHECK_COMPONENTS, "every-component", "every component must be complete, else ComponentNotCompleteError", "check_components does not raise for *every* component that is not complete (some components are skipped or the test changed)")
+    _u8b.same_as_reference(ctx, "R08.b", "ode_component.py", "BaseComponent.is_complete", REF_IS_COMPLETE, "definition", "complete iff states with derivatives == states", "BaseComponent.is_complete is not `states_with_derivatives == states`")
     from sa import av as _avb
 
     from . import util as _ub
@@ -229,19 +245,7 @@ def run(ctx: Ctx):
         if isinstance(st, ast.Assign) and norm(st.targets[0]) == "STATE_DERIV_EXPR" and isinstance(st.value, ast.Call) and st.value.args:
             rx = const_str(st.value.args[0])
     ctx.check(rx == r"^d(?P<state>\w+)_dt$", "R08.b", "src/gotranx/ode_component.py::STATE_DERIV_EXPR", "^d(?P<state>\\w+)_dt$", f"STATE_DERIV_EXPR is {rx!r}", "src/gotranx/ode_component.py")
-    fs = sm.func("ode_component.py", "BaseComponent.find_state")
-    fv_ = _ub.value_of(ctx, fs)
-    if _avb.has_unk(fv_):
-        ctx.undecided("R08.b", fs.key("raises"), "find_state is not understood", fs.where())
-    else:
-        from .c03 import _branches as _brs
-
-        leaves = _brs(fv_)
-        raising = [c for c, x in leaves if x[0] == "raise"]
-        found = [(c, x) for c, x in leaves if x[0] != "raise"]
-        want_c = ("call", "any", (("comp", 1, ("sym", "self.states"), (("cmp", "==", ("attr", ("bv", 1), "name"), ("sym", fs.params[1])),), ()),), ())
-        ok = len(raising) == 1 and len(found) == 1 and raising[0] == (_avb.mk_not(want_c),) and found[0][1] not in (_avb.NONE,)
-        ctx.check(ok, "R08.b", fs.key("raises"), "find_state raises StateNotFoundInComponent when no state matches", f"find_state does not raise exactly when no state of the component has the requested name ({_avb.show(fv_)[:140]})", fs.where())
+    _u8b.same_as_reference(ctx, "R08.b", "ode_component.py", "BaseComponent.find_state", REF_FIND_STATE, "raises", "find_state returns the state with that name and raises StateNotFoundInComponent when no state matches", "find_state does not return the state of that name / raise StateNotFoundInComponent exactly when no state of the component has the requested name")
 
     # ---- R08.c error discipline ---------------------------------------------------------------------
     ctx.rule("R08.c", "every except clause of the package is in the frozen table (one reason each); undefined symbols become MissingSymbolError; nothing catches CycleError / GotranxError on the load->generate path", floor=16)
